@@ -110,8 +110,19 @@ func runC19(e *core.Env) {
 		`local b = blob.head("reg.test/proj/app", "` + someBlob + `"); sig("bhead-ok")`,
 		`local b = blob.get("reg.test/proj/app", "` + someBlob + `"); sig("bget-ok")`,
 		`local r = reference.new("reg.test/proj/app:v1"); r:tag("dev"); local mh = manifest.head(r); sig("ref-" .. r:tag())`,
+		// read functions on their error paths (a list or a head result has no config; a repository that does not exist)
+		`local ml = manifest.getList("reg.test/proj/app:v1"); local c = image.config(ml); sig("config-of-getlist-ok")`,
+		`local mh = manifest.head("reg.test/proj/lib:v1"); local c = image.config(mh); sig("config-of-head-ok")`,
+		`local c = image.config("reg.test/proj/missing:v1"); sig("config-of-missing-ok")`,
+		`local m = manifest.get("reg.test/proj/app:nosuchtag"); sig("mget-missing-ok")`,
 		`local rl = repo.ls("reg.test"); sig("repos-" .. #rl)`,
 		`local tags = tag.ls("ocidir://$LAYOUT"); sig("ltags-" .. table.concat(tags, "_"))`,
+	}
+	failingReads := []string{
+		`local ml = manifest.getList("reg.test/proj/app:v1"); local c = image.config(ml); local mh = manifest.head("reg.test/proj/lib:v1"); local c2 = image.config(mh); error("no config for a head result")`,
+		`local mh = manifest.head("reg.test/proj/lib:v1"); local c = image.config(mh)`,
+		`local m = manifest.get("reg.test/proj/app:nosuchtag")`,
+		`local b = blob.get("reg.test/proj/app", "` + someBlob + `"); local c = image.config("reg.test/proj/missing:v1")`,
 	}
 	writes := []string{
 		`tag.delete("reg.test/proj/app:v2")`,
@@ -142,8 +153,14 @@ func runC19(e *core.Env) {
 			fmt.Fprintf(&sb, "pcall(function() %s end)\n", reads[e.Choose("gen", len(reads), "read")])
 		}
 		sb.WriteString("sig(\"w-begin\")\n")
-		if i == failing && e.Choose("gen", 2, "early") == 1 {
-			sb.WriteString("error(\"script fails on purpose\")\n")
+		if i == failing {
+			switch e.Choose("gen", 4, "early") {
+			case 1:
+				sb.WriteString("error(\"script fails on purpose\")\n")
+			case 2:
+				// fails inside a read function, not protected
+				sb.WriteString(failingReads[e.Choose("gen", len(failingReads), "failread")] + "\n")
+			}
 		}
 		for k, n := 0, 1+e.Choose("gen", 4, "nwrites"); k < n; k++ {
 			wst := writes[e.Choose("gen", len(writes), "write")]
@@ -163,6 +180,7 @@ func runC19(e *core.Env) {
 	sample := map[string]any{"scripts": scripts, "parallel": parallel, "failing_script": failing}
 	e.SetCase(fmt.Sprintf("%v|%d|%d|%s", scripts, parallel, failing, img.Root.Digest), true, sample)
 
+	var only []int // nil: all scripts
 	runBot := func(w *c19World, dry bool) error {
 		regclient.VerifRegOpts = func() []reg.Opts {
 			return []reg.Opts{reg.WithHTTPClient(&http.Client{Transport: w.net})}
@@ -171,6 +189,9 @@ func runC19(e *core.Env) {
 		var cfg strings.Builder
 		fmt.Fprintf(&cfg, "version: 1\ndefaults:\n  skipDockerConfig: true\n  parallel: %d\n  timeout: 1h\nscripts:\n", parallel)
 		for i, s := range scripts {
+			if only != nil && !slicesContains(only, i) {
+				continue
+			}
 			s = strings.NewReplacer("$LAYOUT", w.layout, "$TAR", w.tarOK, "$OUT", w.outDir).Replace(s)
 			fmt.Fprintf(&cfg, "  - name: script-%d\n    script: |\n", i)
 			for _, l := range strings.Split(strings.TrimRight(s, "\n"), "\n") {
@@ -279,6 +300,36 @@ func runC19(e *core.Env) {
 			e.Violation("isolation", "script-did-not-run", "script %d never started (failing script: %d, parallel %d)", i, failing, parallel)
 		}
 	}
+	// a script - failing or not - does not keep the others from running: in a dry run nothing changes, so a script
+	// that runs after the others have ended must report exactly what it reports when it is the only script of the
+	// configuration (identical world, dry run); anything else means an earlier script left something behind
+	perScript := func(w *c19World, i int) []string {
+		var out []string
+		pfx := fmt.Sprintf("/v2/signal/r/manifests/p%d-", i)
+		for _, x := range w.net.Log {
+			if strings.HasPrefix(x.Path, pfx) {
+				out = append(out, strings.TrimPrefix(x.Path, pfx))
+			}
+		}
+		return out
+	}
+	// (only for scripts run one after the other: scripts run in parallel legitimately compete for request slots,
+	// e.g. through blob readers they keep open)
+	if nscripts > 1 && parallel == 0 {
+		for i := 0; i < nscripts; i++ {
+			ws := mkWorld()
+			ws.tarOK = filepath.Join(tarDir, "img.tar")
+			only = []int{i}
+			_ = runBot(ws, true)
+			only = nil
+			alone, together := perScript(ws, i), perScript(wd, i)
+			if strings.Join(alone, ",") != strings.Join(together, ",") {
+				e.Violation("isolation", "script-disturbed-by-others", "script %d reports %v when it is the only script and %v when run with the others (dry run, parallel %d, failing script %d)", i, alone, together, parallel, failing)
+				break
+			}
+			e.Probe("script-compared-with-solo-run")
+		}
+	}
 	if failing >= 0 {
 		e.Probe("with-failing-script")
 		if err == nil {
@@ -303,3 +354,12 @@ func runC19(e *core.Env) {
 }
 
 func refNew(s string) (r refT, err error) { return refParse(s) }
+
+func slicesContains(l []int, x int) bool {
+	for _, y := range l {
+		if y == x {
+			return true
+		}
+	}
+	return false
+}
